@@ -14,9 +14,12 @@ CLAIMED = {
     "C07": (True, "exploration", "DESIGN.md §3 C07",
             "C01's scripts and oracle with the pending receive future dropped at tape-chosen suspension points (every k-th pending poll for every k on the corpus delivered byte-by-byte and with all single/double cuts; probabilistic beyond) and a new receive started, possibly for another type.",
             "Stub read future transfers bytes only in the poll that returns Ready (cancel-safe as the trait demands), so any loss is zlink's."),
+    "C02": (True, "exploration", "DESIGN.md §3 C02",
+            "Real enqueue_call/send_call/send_reply/send_error/flush on a Connection whose write half records every write call; every free-space value 0..=600 x 7 size/refusal classes systematically, plus 1.2e5 (quick) / 3e6 (thorough) seeded histories of up to 31 operations with sizes aimed at the buffer end and growth steps, refused serialisations at any position, write stalls, a failing write and abandoned flushes; compared op by op with a list-of-pending-frames reference writer (frame count, order, one write per flush, JSON value of each frame).",
+            "Frames are compared by JSON value (byte identity with serde_json is C03, not claimed). Stub writes are all-or-nothing."),
 }
 
-PLANNED = {"C02", "C06", "C08", "C09", "C10", "C11", "C17", "C18", "C19", "C20"}
+PLANNED = {"C06", "C08", "C09", "C10", "C11", "C17", "C18", "C19", "C20"}
 
 NOT_BUILT_REASON = "claimed in DESIGN.md but its check is not built yet in this commit"
 
